@@ -39,7 +39,24 @@ func c03Check(res *fw.Result, d *xmlw.Doc, text string, chunk int, detail map[st
 	}
 }
 
+var (
+	c03MinMu    sync.Mutex
+	c03MinCache = map[string]map[string]any{}
+)
+
+// c03Minimal is memoised per key: a failing library produces the same key many times.
 func c03Minimal(root, key string) map[string]any {
+	c03MinMu.Lock()
+	defer c03MinMu.Unlock()
+	if m, ok := c03MinCache[root+"|"+key]; ok {
+		return m
+	}
+	m := c03MinimalSearch(root, key)
+	c03MinCache[root+"|"+key] = m
+	return m
+}
+
+func c03MinimalSearch(root, key string) map[string]any {
 	for _, kind := range xmlw.ObjectKinds {
 		if root == "diff" && !(kind == "node" || kind == "way" || kind == "relation" || kind == "changeset") {
 			continue
